@@ -6,6 +6,8 @@ independent NumPy evaluation of the defining sum + the bias rule of the statemen
 must be exactly the reachable target types with the requested channel counts and the size-formula shape."""
 from __future__ import annotations
 
+import os
+
 import numpy as np
 
 from .. import mlgen, probes
@@ -96,6 +98,19 @@ class LayerMonitor:
             self.viol.append(viol(mech, f"ConvContract(use_bias={mode!r}) returned types {sorted(got)}, reachable requested types are {sorted(want)} (missing {missing}); {cfg}", **cfg))
             return
         S = max([float(np.max(np.abs(v))) for v in list(X.values()) + list(want.values()) if v.size] + [0.0])
+        # conditioning of the defining sum: A = the same sum over the magnitudes of all operands (an upper bound of the sum of
+        # |terms| behind every output entry). The float32 rounding noise of the real layer is a few eps32 * A whatever the value
+        # of the sum; with wide layers whose terms cancel structurally (64 channels, filter taps aliasing onto one pixel of a
+        # small torus) it exceeds 1e-2*S*tol. The denominator floor is therefore max(1e-2*S, 2e-2*A): a single wrong term is
+        # still ~A/n, i.e. a defect of 50/n, far above the tolerance for every fan-in n that can occur.
+        try:
+            absum = rlayer.layer({t: np.abs(v) for t, v in X.items()}, {a: {b: np.abs(w) for b, w in d.items()} for a, d in W.items()}, {t: np.abs(b) for t, b in Bv.items()},
+                                 {t: np.abs(v) for t, v in bank.items()}, target, layer.use_bias, D, tuple(x.is_torus), layer.stride, layer.padding, layer.lhs_dilation, layer.rhs_dilation)
+            A = max([float(np.max(v)) for v in absum.values() if v.size] + [0.0])
+        except ValueError:
+            A = 0.0
+        if not os.environ.get('VMON_NO_ABSFLOOR'):
+            S = max(S, 2.0 * A)
         for t, w in want.items():
             g = got[t]
             c_req = dict(target)[t]
@@ -148,7 +163,7 @@ def run(case, ctx):
     D = case["D"]
     if case.get("kind") == "model":
         return run_model(case, ctx, rng)
-    cfg = mlgen.gen_layer_cfg(rng, D, allow_stride=True, equal_channels=(case["i"] % 3 == 1))
+    cfg = mlgen.gen_layer_cfg(rng, D, allow_stride=True, equal_channels=(case["i"] % 3 == 1), stratum=case["i"])
     key = {k: cfg[k] for k in ("D", "M", "in_sig", "out_sig", "drop", "bias", "padding", "lhs", "rhs", "stride", "torus", "sp")}
     viols, evals = [], 0
     _mon.take()
